@@ -34,6 +34,33 @@ theorem resolve_spec {s : Store} {heads : List Loc} : ∀ {cmds : List Addr} {lo
         · obtain ⟨a', ha', he⟩ := ih hr l h1
           exact ⟨a', List.mem_cons_of_mem _ ha', he⟩
 
+theorem resolve_complete {s : Store} {heads : List Loc} : ∀ {cmds : List Addr} {locs : List Loc},
+    resolve s heads cmds = .ok locs →
+    ∀ a ∈ cmds, ∀ x, getLocation s heads a = .ok (some x) → x ∈ locs := by
+  intro cmds
+  induction cmds with
+  | nil => intro locs _ a ha; cases ha
+  | cons a0 as ih =>
+    intro locs h a ha x hx
+    unfold resolve at h
+    cases hg : getLocation s heads a0 with
+    | error e => rw [hg] at h; cases h
+    | ok r =>
+      rw [hg] at h
+      simp only at h
+      cases hr : resolve s heads as with
+      | error e => rw [hr] at h; cases h
+      | ok ls =>
+        rw [hr] at h
+        simp only [Except.ok.injEq] at h
+        subst h
+        rcases List.mem_cons.mp ha with rfl | ha'
+        · rw [hx] at hg
+          simp only [Except.ok.injEq] at hg
+          subst hg
+          simp
+        · exact List.mem_append_right _ (ih hr a ha' x hx)
+
 theorem insertDesc_head_ge {x : Loc} {l : List Loc} (hl : ∀ y ∈ l, y.mc ≤ headMc l) :
     ∀ y ∈ insertDesc x l, y.mc ≤ headMc (insertDesc x l) := by
   intro y hy
@@ -71,6 +98,8 @@ theorem headMc_sortDesc_ge (l : List Loc) : ∀ h ∈ sortDesc l, h.mc ≤ headM
 structure FnsParts (s : Store) (lim : Limits) (heads : List Loc) (commands : List Addr)
     (ts haves sts F K : List Loc) : Prop where
   haves_ok : ∀ h ∈ haves, s.valid h = true ∧ ∃ a ∈ commands, getLocation s heads a = .ok (some h)
+  haves_all : ∀ a ∈ commands, ∀ x, getLocation s heads a = .ok (some x) → x ∈ haves
+  head_max : ∀ h ∈ haves, h.mc ≤ headMc haves
   starts_ok : ∀ x ∈ sts, s.valid x = true ∧
     ∃ h ∈ heads, skipJump s h (headMc haves + lim.segmentMax) = .ok x
   starts_all : ∀ h ∈ heads, ∃ x ∈ sts, skipJump s h (headMc haves + lim.segmentMax) = .ok x
@@ -125,10 +154,13 @@ theorem findNeeded_spec {s : Store} (hwf : WF s) {lim : Limits} {heads : List Lo
             (kept_nil _) hloop
           have hda := drainAll_lookup hi.pq1
           refine ⟨sortDesc locs, sts, F' ++ st.pq.drainAll.1,
-            st.pq.drainAll.1.foldl (pushBounded lim.segmentMax) st.coll, ?_, ?_, ?_, ?_, ?_, ?_, ?_⟩
+            st.pq.drainAll.1.foldl (pushBounded lim.segmentMax) st.coll, ?_, ?_, ?_, ?_, ?_, ?_, ?_, ?_, ?_⟩
           · intro x hx
             have hxl := mem_sortDesc.mp hx
             exact ⟨hlv x hxl, hlocs x hxl⟩
+          · intro a ha x hx
+            exact mem_sortDesc.mpr (resolve_complete hres a ha x hx)
+          · exact headMc_sortDesc_ge locs
           · intro x hx
             exact ⟨hsv x hx, e2 x hx⟩
           · intro h0 hh0
@@ -151,5 +183,188 @@ theorem findNeeded_spec {s : Store} (hwf : WF s) {lim : Limits} {heads : List Lo
           · exact kept_fold _ hk
           · rw [← h]
             rfl
+
+end AranyaV.Sync
+
+namespace AranyaV.Sync
+open AranyaV.Queue AranyaV.Segments
+
+/-- **`find_needed_segments` produces a list with the closure property** `ToSendOK` relative to the
+ancestors-or-self of the resolved sample: on a well-formed store, every entry points into its
+segment, the predecessor of a mid-segment start is covered, and every prior of a whole segment is
+covered or lies in the range of an earlier entry. -/
+theorem fns_toSendOK_of_parts {s : Store} (hwf : WF s) {lim : Limits} {heads : List Loc}
+    {commands : List Addr} {ts haves sts F K : List Loc}
+    (hp : FnsParts s lim heads commands ts haves sts F K) :
+    ToSendOK s (Cov s haves) ts := by
+  intro k e hk
+  have hsorted := sortLoc_sorted K
+  rw [← hp.sorted] at hsorted
+  have heK : e ∈ K := by
+    have : e ∈ ts := List.mem_of_getElem? hk
+    rw [hp.sorted] at this; exact mem_sortLoc.mp this
+  have heF := hp.kept.sub e heK
+  obtain ⟨hj, hfr⟩ := hp.just e heF
+  obtain ⟨g, hg, h1, h2, h3⟩ := hj
+  refine ⟨⟨g, hg, h1⟩, ?_⟩
+  intro p hpar
+  obtain ⟨g', hg', _, _, hcase⟩ := mem_parents hpar
+  rw [hg] at hg'; cases hg'
+  rcases hcase with ⟨hlt, rfl⟩ | ⟨heq, hpm⟩
+  · rcases h3 with h3 | h3
+    · omega
+    · exact Or.inl h3
+  · have hpos : 0 < g.ids.length := by omega
+    have hre : Reach s sts e := hfr g hg heq
+    have hpv := (hwf.priors _ g hg p hpm)
+    have hanc : AncS s p e := by
+      have := prior_anc hg hpos hpm
+      have he : (⟨g.first, e.seg⟩ : Loc) = e := by cases e; simp at heq ⊢; exact heq.symm
+      rw [he] at this; exact this
+    rcases hp.complete p hpv.1 (hre.down hanc) with hc | ⟨e', he', hs', hm'⟩
+    · exact Or.inl hc
+    · right
+      have hlt : e'.mc < e.mc := by omega
+      have he'K : e' ∈ K := hp.kept.low e heK e' he' hlt
+      have he'ts : e' ∈ ts := by rw [hp.sorted]; exact mem_sortLoc.mpr he'K
+      obtain ⟨k', hk', hke'⟩ := sorted_index_lt hsorted hk he'ts hlt
+      exact ⟨k', e', hk', hke', hs', hm', hpv.1⟩
+
+theorem fns_toSendOK {s : Store} (hwf : WF s) {lim : Limits} {heads : List Loc}
+    {commands : List Addr} {ts : List Loc} (hh : ∀ h ∈ heads, s.valid h = true)
+    (h : findNeeded lim s heads commands = .ok ts) :
+    ∃ haves : List Loc,
+      (∀ x ∈ haves, s.valid x = true ∧ ∃ a ∈ commands, getLocation s heads a = .ok (some x)) ∧
+      ToSendOK s (Cov s haves) ts := by
+  obtain ⟨haves, sts, F, K, hp⟩ := findNeeded_spec hwf hh h
+  exact ⟨haves, hp.haves_ok, fns_toSendOK_of_parts hwf hp⟩
+
+/-! ## progress -/
+
+theorem skipJumpLoop_mc (s : Store) (target : Nat) (head : Loc) :
+    ∀ (n : Nat) (cur r : Loc), (cur = head ∨ target ≤ cur.mc) →
+      skipJumpLoop s target n cur = .ok r → r = head ∨ target ≤ r.mc := by
+  intro n
+  induction n with
+  | zero => intro cur r _ h; simp [skipJumpLoop] at h
+  | succ n ih =>
+    intro cur r hc h
+    unfold skipJumpLoop at h
+    cases hg : s.seg? cur.seg with
+    | none => rw [hg] at h; cases h
+    | some g =>
+      rw [hg] at h
+      simp only at h
+      cases hm : minByMc (g.skips.filter (fun k => decide (target ≤ k.mc ∧ k.mc < cur.mc))) with
+      | some k =>
+        rw [hm] at h
+        simp only at h
+        have hk := (List.mem_filter.mp (minByMc_mem' hm)).2
+        simp only [decide_eq_true_eq] at hk
+        exact ih k r (Or.inr hk.1) h
+      | none =>
+        rw [hm] at h
+        simp only at h
+        by_cases hb : priorBelow g.prior target = true
+        · rw [if_pos hb] at h
+          simp only [Except.ok.injEq] at h
+          subst h; exact hc
+        · rw [if_neg hb] at h
+          cases hp : g.prior with
+          | single p =>
+            rw [hp] at h hb
+            simp only at h
+            have : target ≤ p.mc := by
+              simp only [priorBelow, decide_eq_true_eq, Nat.not_lt] at hb; exact hb
+            exact ih p r (Or.inr this) h
+          | none =>
+            rw [hp] at h
+            simp only [Except.ok.injEq] at h
+            subst h; exact hc
+          | merge a b =>
+            rw [hp] at h
+            simp only [Except.ok.injEq] at h
+            subst h; exact hc
+
+theorem skipJump_mc {s : Store} {head r : Loc} {target : Nat}
+    (h : skipJump s head target = .ok r) : r = head ∨ target ≤ r.mc := by
+  unfold skipJump at h
+  by_cases hle : head.mc ≤ target
+  · rw [if_pos hle] at h
+    simp only [Except.ok.injEq] at h
+    exact Or.inl h.symm
+  · rw [if_neg hle] at h
+    exact skipJumpLoop_mc s target head _ head r (Or.inl rfl) h
+
+theorem length_insertLoc (x : Loc) (l : List Loc) : (insertLoc x l).length = l.length + 1 := by
+  induction l with
+  | nil => simp [insertLoc]
+  | cons z zs ih =>
+    unfold insertLoc
+    by_cases h : x.ble z = true
+    · rw [if_pos h]; simp
+    · rw [if_neg h]; simp [ih]
+
+theorem length_sortLoc (l : List Loc) : (sortLoc l).length = l.length := by
+  unfold sortLoc
+  induction l with
+  | nil => rfl
+  | cons x xs ih => simp only [List.foldr, length_insertLoc, ih, List.length_cons]
+
+theorem closed_ancS {s : Store} {A : List Loc} (hA : ∀ b ∈ A, ∀ p ∈ s.parents b, p ∈ A)
+    {a b : Loc} (h : AncS s a b) (hb : b ∈ A) : a ∈ A := by
+  induction h with
+  | refl => exact hb
+  | step _ hm ih => exact ih (hA _ hb _ hm)
+
+/-- **Progress of `find_needed_segments`.**  `A` = the command locations of the responder's store
+whose command the requester holds (parents-closed, contains the resolved sample, and its highest
+max cut is sampled).  If every command of the store is an ancestor-or-self of a head and the
+requester lacks one, then the stream of the result contains a command the requester lacks —
+unless the buffer of `SEGMENT_BUFFER_MAX` entries is completely filled with entries the requester
+holds entirely. -/
+theorem fns_progress_of_parts {s : Store} {lim : Limits} (hcap : 1 ≤ lim.segmentMax)
+    {heads : List Loc} {commands : List Addr} {ts haves sts F K : List Loc}
+    (hp : FnsParts s lim heads commands ts haves sts F K)
+    (hh : ∀ h ∈ heads, s.valid h = true)
+    (A : List Loc) (hA : ∀ b ∈ A, ∀ p ∈ s.parents b, p ∈ A) (hhA : ∀ h ∈ haves, h ∈ A)
+    (hmax : ∀ l ∈ A, l.mc ≤ headMc haves)
+    (hcommitted : ∀ l, s.valid l = true → ∃ h ∈ heads, AncS s l h)
+    (hmiss : ∃ l, s.valid l = true ∧ l ∉ A) :
+    (∃ l ∈ streamLocs s ts, l ∉ A) ∨
+    (ts.length = lim.segmentMax ∧ ∀ l ∈ streamLocs s ts, l ∈ A) := by
+  -- a head the requester lacks, and the start the traversal was seeded with for it
+  obtain ⟨l0, hl0, hl0A⟩ := hmiss
+  obtain ⟨h0, hh0, hl0h⟩ := hcommitted l0 hl0
+  have hh0A : h0 ∉ A := fun hin => hl0A (closed_ancS hA hl0h hin)
+  obtain ⟨x, hx, hsj⟩ := hp.starts_all h0 hh0
+  have hxA : x ∉ A := by
+    rcases skipJump_mc hsj with rfl | hge
+    · exact hh0A
+    · intro hin
+      have := hmax x hin
+      omega
+  have hxv := (hp.starts_ok x hx).1
+  -- it is in the range of a flushed entry
+  have hxF : ∃ e ∈ F, x ∈ entryLocs s e := by
+    rcases hp.complete x hxv ⟨x, hx, AncS.refl _⟩ with ⟨h', hh', hanc⟩ | ⟨e, he, hs, hm⟩
+    · exact absurd (closed_ancS hA hanc (hhA h' hh')) hxA
+    · obtain ⟨g, hg, h1, _, _⟩ := (hp.just e he).1
+      exact ⟨e, he, mem_entryLocs_of_valid hs hm hxv ⟨g, hg, h1⟩⟩
+  obtain ⟨e, heF, hxe⟩ := hxF
+  have hstream : ∀ e' ∈ K, ∀ l ∈ entryLocs s e', l ∈ streamLocs s ts := by
+    intro e' he' l hl
+    simp only [streamLocs, List.mem_flatMap]
+    exact ⟨e', by rw [hp.sorted]; exact mem_sortLoc.mpr he', hl⟩
+  by_cases heK : e ∈ K
+  · exact Or.inl ⟨x, hstream e heK x hxe, hxA⟩
+  · by_cases hex : ∃ l ∈ streamLocs s ts, l ∉ A
+    · exact Or.inl hex
+    · right
+      refine ⟨?_, fun l hl => Classical.byContradiction fun hn => hex ⟨l, hl, hn⟩⟩
+      have hfull : ¬ K.length < lim.segmentMax := fun hlt => heK (hp.kept.all hlt e heF)
+      have := hp.kept.len
+      rw [hp.sorted, length_sortLoc]
+      omega
 
 end AranyaV.Sync
